@@ -147,7 +147,7 @@ func (t *Term) Contains(pred func(*Term) bool) bool {
 
 // StripConv removes value-preserving wrappers (conversions, assertions).
 func StripConv(t *Term) *Term {
-	for t != nil && (t.Op == OpConv || t.Op == OpAssert) && len(t.Args) == 1 {
+	for t != nil && (t.Op == OpConv || (t.Op == OpAssert && !strings.HasSuffix(t.Name, ",ok"))) && len(t.Args) == 1 {
 		t = t.Args[0]
 	}
 	return t
